@@ -307,7 +307,6 @@ def main():
                 "quick_cmd": "bin/check %s --tier quick" % pid,
                 "thorough_cmd": "bin/check %s --tier thorough" % pid,
                 "evidence_file": "/verif/evidence/%s.json" % pid,
-                "replay_cmd_template": "bin/check %s --replay {path}" % pid,
                 "engine": "tlc+replay",
                 "level_claimed": {"category": MC, "text": c["text"], "design_ref": c["ref"]},
                 "level_note": c["note"],
